@@ -65,6 +65,7 @@ type Report struct {
 	Assumptions []string
 	NotDecided  []string
 	Rules       []string // human description of the rules applied
+	Evals       int      // instance-level evaluations behind the (aggregated) obligations
 	samples     []any
 	seenKey     map[string]bool
 }
@@ -292,9 +293,9 @@ func (r *Report) Finish(verifDir string, known []KnownFinding, seed int64, start
 			"explanation":         expl,
 			"obligations":         total,
 			"discharged":          nOK,
-			"evaluations":         maxInt(total, 1),
+			"evaluations":         maxInt(total+r.Evals, 1),
 			"distinct_nontrivial": len(distinct),
-			"rule":                "one obligation per (rule, construct, instance); distinct = distinct rule|construct|what keys; an obligation is non-trivial when it names a construct of /repo resolved through the type checker",
+			"rule":                "evaluations = instance-level rule evaluations (one per rule, construct and abstract instance/path) plus structural obligations; obligations are aggregated per rule|construct|what key; distinct_nontrivial = number of distinct keys, each naming a construct of /repo resolved through the type checker",
 			"obligations_by_rule": perRule,
 			"rule_instances":      r.Counts,
 			"instance_minima":     r.Minima,
